@@ -43,7 +43,13 @@ NoNameType(es) == [i \in 1..Len(es) |-> [es[i] EXCEPT !.nameType = Zero4]]
 MITOK(x) == LET m == ModelOf(x.model) IN
             /\ Render(m) = H(x.image) /\ x.rc = 0
             /\ IF m.version = 2 THEN MITProj(x.entries) = MITExp(m) ELSE NoNameType(MITProj(x.entries)) = MITExp(m)
-LineOK(x) == CASE x.ev = "image" -> ImageOK(x) [] x.ev = "mit" -> MITOK(x) [] OTHER -> LookupOK(x)
+\* gokrb5's WRITER judged by the independent reader: the file Keytab.Marshal produced after parsing the image (x.image here) is read
+\* by MIT and must hold the entries of the model ("serialising any keytab and parsing the result yields the same entries", with a parser
+\* that is not gokrb5's)
+MITReOK(x) == LET m == ModelOf(x.model) IN
+              /\ x.rc = 0
+              /\ IF m.version = 2 THEN MITProj(x.entries) = MITExp(m) ELSE NoNameType(MITProj(x.entries)) = MITExp(m)
+LineOK(x) == CASE x.ev = "image" -> ImageOK(x) [] x.ev = "mit" -> MITOK(x) [] x.ev = "mitre" -> MITReOK(x) [] OTHER -> LookupOK(x)
 Init == LT!Init
 Next == LT!Next
 Check == ~LT!Active \/ LineOK(Tr[l]) \/ PrintT(<<"BADLINE", l>>)
